@@ -17,6 +17,7 @@ func init() {
 	vrt.Register("C16_first_class", FirstClass)
 	vrt.Register("C16_recursion", Recursion)
 	vrt.Register("C16_arity", Arity)
+	vrt.Register("C16_nil_argument", NilArgument)
 }
 
 func itoa(n int) string { return strconv.Itoa(n) }
@@ -231,5 +232,31 @@ func Arity() {
 	got, err := render(in, ctx)
 	vrt.Assert(err == nil, "functions of 0-4 parameters render")
 	vrt.Assert(got == "["+want+"]", "parameter i is bound to argument i")
+	vrt.Cover("done")
+}
+
+// a nil argument binds the parameter to nil, also when the caller (or an outer
+// activation of the same function) has a non-nil variable of the parameter's name
+func NilArgument() {
+	x := vrt.Int()
+	ctx := plush.NewContext()
+	ctx.Set("a", x)
+	ctx.Set("z", nil)
+	def := "<% let f = fn(a) { if (a) { return \"set\" } return \"nil\" } %>"
+	var in, want string
+	switch vrt.Choice(4) {
+	case 0:
+		in, want = def+"[<%= f(nil) %>|<%= f(a) %>]", "[nil|set]"
+	case 1:
+		in, want = def+"[<%= f(nil) %>|<%= a %>]", "[nil|"+itoa(x)+"]"
+	case 2: // recursion: the inner activation gets nil while the outer holds a value
+		in = "<% let g = fn(a, n) { if (n == 0) { if (a) { return \"set\" } return \"nil\" } return g(nil, n - 1) } %>[<%= g(1, 1) %>]"
+		want = "[nil]"
+	default:
+		in, want = def+"<% let h = fn(a) { return f(nil) } %>[<%= h(5) %>]", "[nil]"
+	}
+	got, err := render(in, ctx)
+	vrt.Assert(err == nil, "calling a user function with a nil argument renders")
+	vrt.Assert(got == want, "a parameter bound to nil is nil inside the function")
 	vrt.Cover("done")
 }
